@@ -31,7 +31,7 @@ func init() {
 		Sibling(c, "R-SIBLING", libPkgs(c), 500)
 		// Combine is not commutative: the N-ary instance keeps the operand order at every position (monoid.Dual is the one reverser)
 		Mirror(c, "R-COMBINE-ORDER", []*packages.Package{c.Pkg("monoid"), c.Pkg("semigroup")}, map[string]bool{"Combine": true}, true,
-			func(bc binClosure) bool { return bc.fb.Decl != nil && bc.fb.Decl.Name.Name == "Dual" }, 25)
+			dualExempt(c), 25)
 	})
 }
 
